@@ -1203,7 +1203,9 @@ def run(ctx):
     from . import C06
 
     from ..formula import imported
+    from ._treespec import rule_TS
 
+    rule_TS(ctx, owners=["tree.Tree", "tree_node.TreeNode", "visitors.PreOrderNodeRelabeller"])
     ctx._own_rules = set(ctx.rule_min)
     imported(ctx, C06.rule_M4, fx)
 
